@@ -174,6 +174,9 @@ def build_table(case):
     lay = list(spec.get('layout') or ['dense'])
     pokes = [x for x in lay if x in POKES]
     lay = [x for x in lay if x not in POKES] or ['dense']
+    if not spec['oids'] or not spec['sids']:
+        # vector access is refused on an empty table
+        lay = [x for x in lay if x not in ('colaccess', 'rowaccess')] or ['dense']
     cells = _poke_cells(spec) if 'poke_zero' in pokes else []
     mat = [list(row) for row in spec['mat']]
     for i, j in cells:
